@@ -101,7 +101,7 @@ def analyse_tree(tree, props, worker, configs=None, tier="quick"):
         shutil.rmtree(fdir, ignore_errors=True)
 
 
-def run_mutant(m, repo, worker):
+def run_mutant(m, repo, worker, only_prop=None):
     tree = os.path.join(ROOT, "w%d" % worker, "repo")
     copy_tree(repo, tree)
     why = apply_mutant(m, tree)
@@ -109,6 +109,8 @@ def run_mutant(m, repo, worker):
         return {"id": m["id"], "status": "not-applicable", "why": why}
     try:
         props = ["C%02d" % i for i in range(1, 21)] if m["property"] == "*" else [m["property"]] + list(m.get("also", []))
+        if only_prop:
+            props = [only_prop]
         res = analyse_tree(tree, props, worker)
     except RuntimeError as e:
         return {"id": m["id"], "status": "build-failed", "why": str(e)[-400:]}
@@ -131,7 +133,7 @@ def run_mutant(m, repo, worker):
     return {"id": m["id"], "property": m["property"], "status": status, "fired": fired[:6], "desc": m.get("desc", "")}
 
 
-def run_all(mutants, repo="/repo", workers=8):
+def run_all(mutants, repo="/repo", workers=8, only_prop=None):
     os.makedirs(ROOT, exist_ok=True)
     import queue
     q = queue.Queue()
@@ -141,7 +143,7 @@ def run_all(mutants, repo="/repo", workers=8):
     def job(m):
         w = q.get()
         try:
-            return run_mutant(m, repo, w)
+            return run_mutant(m, repo, w, only_prop)
         except Exception as e:
             import traceback
             return {"id": m["id"], "status": "error", "why": traceback.format_exc()[-600:]}
@@ -163,7 +165,7 @@ def run_for(prop, ctx, repo=None):
     if not ms:
         return None
     try:
-        res = run_all(ms, repo, workers=min(8, len(ms)))
+        res = run_all(ms, repo, workers=min(12, len(ms)), only_prop=prop)
     finally:
         cleanup()
     summ = {"mutants": len(res)}
